@@ -346,6 +346,10 @@ type xsection struct {
 	trailer map[string]any
 	tdict   []byte // raw trailer dictionary text (table form)
 	end     int    // position right after the section's dictionary/obj
+	// cross-reference streams only
+	w     [3]int
+	index []int  // start, count pairs
+	data  []byte // inflated rows
 }
 
 func fixedDigits(b []byte, p, n int) (int, bool) {
@@ -513,13 +517,14 @@ func parseXRefStreamAt(b []byte, x int, eol string) (*xsection, error) {
 	} else if _, has := d["Filter"]; has {
 		return nil, fmt.Errorf("xref-syntax: filter")
 	}
+	s.w, s.index, s.data = w, idx, data
 	rowLen := w[0] + w[1] + w[2]
 	total := 0
 	for i := 0; i < len(idx); i += 2 {
 		total += idx[i+1]
 	}
 	if rowLen == 0 || len(data) != total*rowLen {
-		return nil, fmt.Errorf("xref-syntax: %d bytes of rows for %d entries of width %d", len(data), total, rowLen)
+		return nil, fmt.Errorf("xref-stream-width: decoded cross-reference stream has %d bytes, /Index announces %d rows of /W %v = %d bytes (a field wider than /W declares misaligns all following rows)", len(data), total, w, total*rowLen)
 	}
 	p := 0
 	field := func(n int, def int) int {
@@ -578,7 +583,7 @@ func classOf(err error) string {
 	for i := 0; i < len(s); i++ {
 		if s[i] == ':' {
 			switch s[:i] {
-			case "header", "stream-length", "startxref-target", "xref-syntax", "size":
+			case "header", "stream-length", "startxref-target", "xref-syntax", "xref-stream-width", "size":
 				return s[:i]
 			}
 			break
